@@ -17,7 +17,7 @@ UNPACK = 'Avtp_Vss_DeserializeStringArray'
 def lists(tier):
     import itertools
     ls = [[], [2, 0, 7, 1]]
-    alphabet = [0, 1, 5, 130, 255] if tier != 'thorough' else [0, 1, 2, 3, 127, 128, 255, 256, 300]
+    alphabet = [0, 1, 5, 130, 255, 300] if tier != 'thorough' else [0, 1, 2, 3, 127, 128, 255, 256, 300, 511, 512]
     for n in (1, 2, 3):
         for combo in itertools.product(alphabet, repeat=n):
             ls.append(list(combo))
@@ -192,7 +192,9 @@ def _unpack(t):
         if k < n:
             got = V.peek(mod, d, 0, 2)
             if got != lens[k]:
-                out.append(('violation', key + ':len', '%s [%s]: string %d: reported length %r, packed length %d' % (where, desc, k, got, lens[k])))
+                out.append(('violation', key + ':len', '%s [%s]: string %d: reported length %s, packed length %d'
+                            % (where, desc, k, got if isinstance(got, int) else 'is not written (keeps its previous content)'
+                               if got == V.peek(mod, Region('d%d' % k, 'sym', 2), 0, 2) else B.fmt_vec(got, 16), lens[k])))
                 break
             if not nulldst:
                 exp = [V.In('packed', o + 2 + i) for i in range(lens[k])]
@@ -255,7 +257,7 @@ def run(ctx, tier, res, tag=''):
                 res.undec(text)
     res.sample({'list_lengths': [1, 5, 0], 'packed_octets': 12, 'pack': 'BE16 length + bytes per string, total recorded',
                 'count': 3, 'unpack_requested': [2, 3, 5], 'verdict': 'lengths and bytes equal; nothing read beyond octet 12'})
-    res.rule = ('per list shape (every list of 1..3 strings with lengths from {0,1,5,130,255} [thorough {0,1,2,3,127,128,255,256,300}], [], [2,0,7,1], 256 empty and 300 mixed strings; thorough adds 1000/2000 strings, 65533 and 32767+32764 octets): '
+    res.rule = ('per list shape (every list of 1..3 strings with lengths from {0,1,5,130,255,300} [thorough {0,1,2,3,127,128,255,256,300,511,512}], [], [2,0,7,1], 256 empty and 300 mixed strings; thorough adds 1000/2000 strings, 65533 and 32767+32764 octets): '
                 'pack, count and unpack interpreted on exact-extent regions with symbolic string bytes; unpack with requested count '
                 'k-1, k, k+2 and with/without destinations; results must equal the reference packing and no access may leave the '
                 'recorded length or the destinations')
